@@ -20,6 +20,12 @@ func init() {
 var SpecialKeys = []string{"a/b", "a,b", "a=b", "100%", "a b", " lead", "é", "x?y", "a#b", "a+b", "%2F", "k1", "a/b,c=d", "中", "a&b", "..", "a;b"}
 
 func findStage(fname string, r *rand.Rand, n int, special bool) (core.Stage, error) {
+	gp := gen.Default
+	gp.PList, gp.PCont, gp.PLeaf = 0.8, 0.7, 0.6
+	return findStageP(fname, r, n, special, gp)
+}
+
+func findStageP(fname string, r *rand.Rand, n int, special bool, gp gen.Params) (core.Stage, error) {
 	f, err := fx.Load(fname)
 	if err != nil {
 		return core.Stage{}, err
@@ -34,8 +40,6 @@ func findStage(fname string, r *rand.Rand, n int, special bool) (core.Stage, err
 	}
 	return core.Stage{Name: name, EvalMod: "EvalFind", EvalEnv: map[string]string{"SCHEMA": f.DSFile},
 		Cases: func(emit func(core.Case)) {
-			gp := gen.Default
-			gp.PList, gp.PCont, gp.PLeaf = 0.8, 0.7, 0.6
 			g := &gen.G{DS: f.DS, R: r, P: gp}
 			if special {
 				g.KeyStr = SpecialKeys
@@ -194,6 +198,15 @@ func planC08(tier string, seed int64) (*core.Plan, error) {
 		if err != nil {
 			return nil, err
 		}
+		p.Stages = append(p.Stages, st)
+	}
+	// S7 once more, densely populated: the nodes in the innermost cases of its nested choices are there
+	{
+		st, err := findStageP("S7", r, n/4, false, gen.Params{PLeaf: 0.95, PCont: 0.95, PList: 0.95, MaxEntries: 3, MaxDepth: 8})
+		if err != nil {
+			return nil, err
+		}
+		st.Name = "S7-dense"
 		p.Stages = append(p.Stages, st)
 	}
 	for _, fname := range []string{"S0", "S1"} {
